@@ -2,20 +2,74 @@
 import ast
 import math
 import os
+import re
 
 from harness import core, py2lean, instantiate
 from harness.core import Outcome, f2b, b2f
 
 ID = "C01"
-LEAN_TARGETS = ["BeyondVerif.Props.C01", "BeyondVerif.Witness.C01"]
-THEOREMS = ["BeyondVerif.C01." + t for t in (
-    "cart_cyl_cart cyl_cart_cyl cart_sph_cart sph_cart_sph kepl_circ_kepl circ_kepl_circ mean_mcirc_mean mcirc_mean_mcirc "
-    "mean_tle_mean tle_mean_tle kepl_equi_kepl equi_kepl_equi kepl_ecc_kepl_elliptic ecc_kepl_ecc_elliptic "
-    "kepl_ecc_kepl_hyperbolic ecc_kepl_ecc_hyperbolic m2eLoop_exit m2e_residual_elliptic mean_ecc_mean_elliptic "
-    "ecc_mean_ecc_elliptic m2e_exit m2e_reduction_elliptic m2e_residual_hyperbolic mean_ecc_mean_hyperbolic ecc_mean_ecc_hyperbolic mean_mcirc_mean_hyperbolic keplToCart_respects_angEq keplToCirc_respects_angEq "
-    "edge_methods_are_links forms_walk_unique infos_fpa_components_unit infos_fpa_tan infos_visviva_energy infos_period "
-    "infos_apsides infos_hyperbolic keplToCart_radius_speed_momentum keplToCart_dot_node kepl_cart_kepl cart_kepl_cart_of_image walk_roundtrip_exact walk_roundtrip_cyl_sph").split()] + [
-    "BeyondVerif.C01W.m2e_start_clamped", "BeyondVerif.C01W.mean_circular_keeps_hyperbolic_M"]
+LEAN_TARGETS = ["BeyondVerif.Props.C01", "BeyondVerif.Props.C01Machine", "BeyondVerif.Witness.C01"]
+THEOREMS = [
+    "BeyondVerif.C01.cart_cyl_cart",
+    "BeyondVerif.C01.cyl_cart_cyl",
+    "BeyondVerif.C01.cart_sph_cart",
+    "BeyondVerif.C01.sph_cart_sph",
+    "BeyondVerif.C01.kepl_circ_kepl",
+    "BeyondVerif.C01.circ_kepl_circ",
+    "BeyondVerif.C01.mean_mcirc_mean",
+    "BeyondVerif.C01.mcirc_mean_mcirc",
+    "BeyondVerif.C01.mean_tle_mean",
+    "BeyondVerif.C01.tle_mean_tle",
+    "BeyondVerif.C01.kepl_equi_kepl",
+    "BeyondVerif.C01.equi_kepl_equi",
+    "BeyondVerif.C01.kepl_ecc_kepl_elliptic",
+    "BeyondVerif.C01.ecc_kepl_ecc_elliptic",
+    "BeyondVerif.C01.kepl_ecc_kepl_hyperbolic",
+    "BeyondVerif.C01.ecc_kepl_ecc_hyperbolic",
+    "BeyondVerif.C01.m2eLoop_exit",
+    "BeyondVerif.C01.m2e_residual_elliptic",
+    "BeyondVerif.C01.mean_ecc_mean_elliptic",
+    "BeyondVerif.C01.ecc_mean_ecc_elliptic",
+    "BeyondVerif.C01.m2e_exit",
+    "BeyondVerif.C01.m2e_reduction_elliptic",
+    "BeyondVerif.C01.m2e_residual_hyperbolic",
+    "BeyondVerif.C01.mean_ecc_mean_hyperbolic",
+    "BeyondVerif.C01.ecc_mean_ecc_hyperbolic",
+    "BeyondVerif.C01.mean_mcirc_mean_hyperbolic",
+    "BeyondVerif.C01.keplToCart_respects_angEq",
+    "BeyondVerif.C01.keplToCirc_respects_angEq",
+    "BeyondVerif.C01.edge_methods_are_links",
+    "BeyondVerif.C01.forms_walk_unique",
+    "BeyondVerif.C01.infos_fpa_components_unit",
+    "BeyondVerif.C01.infos_fpa_tan",
+    "BeyondVerif.C01.infos_visviva_energy",
+    "BeyondVerif.C01.infos_period",
+    "BeyondVerif.C01.infos_apsides",
+    "BeyondVerif.C01.infos_hyperbolic",
+    "BeyondVerif.C01.keplToCart_radius_speed_momentum",
+    "BeyondVerif.C01.keplToCart_dot_node",
+    "BeyondVerif.C01.kepl_cart_kepl",
+    "BeyondVerif.C01.cart_kepl_cart_of_image",
+    "BeyondVerif.C01.walk_roundtrip_exact",
+    "BeyondVerif.C01.walk_roundtrip_cyl_sph",
+    "BeyondVerif.C01.infos_helper_never_reused",
+    "BeyondVerif.C01.frame_setter_order",
+    "BeyondVerif.C01.form_setter_order",
+    "BeyondVerif.C01.copy_order",
+    "BeyondVerif.C01.readInfos_fresh",
+    "BeyondVerif.C01.readInfos_withSlot",
+    "BeyondVerif.C01.applyOp_withSlot",
+    "BeyondVerif.C01.run_independent_of_slot",
+    "BeyondVerif.C01.run_congr_core",
+    "BeyondVerif.C01.run_erase_reads",
+    "BeyondVerif.C01.setForm_elements",
+    "BeyondVerif.C01.setFrame_elements",
+    "BeyondVerif.C01.routes_mirror",
+    "BeyondVerif.C01.setForm_back",
+    "BeyondVerif.C01.setFrame_cartesian_view",
+    "BeyondVerif.C01W.m2e_start_clamped",
+    "BeyondVerif.C01W.mean_circular_keeps_hyperbolic_M",
+]
 LEVEL_TEXT = ("Lean theorems over R about the 17 edge functions, the M2E reduction/start/update/exit test/return and the Infos formulas translated from "
               "forms.py / statevector.py on every run (py2lean): round trips of all 9 links in both directions for all inputs in the stated domains "
               "(cyl, sph, circular, mean-circular incl. hyperbolic M exact, TLE, equinoctial, true<->eccentric/hyperbolic anomaly, keplerian->cartesian->"
@@ -23,24 +77,38 @@ LEVEL_TEXT = ("Lean theorems over R about the 17 edge functions, the M2E reducti
               "circle and exact inside one turn; Kepler-equation residual at the returned value for both conics (2 tol (1+e) / 8 e cosh H tol^2) and "
               "eccentric<->mean round trips, for every fuel, every M and every start branch; keplerian->cartesian invariant under the circle relation and "
               "definition-true (radius, vis-viva, angular momentum, r.v, node-line component); routing = unique tree walk (C20), walk round trip by "
-              "induction over the path (exact form); Infos relations. Differential correspondence of every edge, M2E, Infos and StateVector.copy "
-              "along the routed walk against the compiled Lean model.")
+              "induction over the path (exact form); Infos relations. "
+              "The object as a state machine (Model/SVMachine: six numbers, form, frame with the mu of its centre, the _data['infos'] slot with the memoising "
+              "helper; operations = element / slice / name assignment, in-place arithmetic, form setter, frame setter, copy(frame=, form=), infos read), its "
+              "setters INTERPRETING the order of effects read from the AST on every run: for every history the reports and the final state are a function of "
+              "(six numbers, form, frame, mu) only (no hidden state), a read returns what a fresh object returns and never disturbs, the frame setter writes the "
+              "elements of the transformed cartesian state for the mu of the NEW centre and the object then stands for exactly that state, form there-and-back "
+              "returns the numbers; `decide`d facts about the regenerated tables (helper never reused, frame committed before the form is restored, convert "
+              "before commit, copy: frame then form). Differential correspondence of every edge, M2E, Infos, StateVector.copy along the routed walk, and of "
+              "random operation histories on real StateVector / Orbit objects (4 central bodies, 16 frames) against the compiled Lean model.")
 LEVEL_NOTE = ("proof (partial): not proved are (1) that every cartesian state with h != 0, sin i != 0, e != 0 is the view of some elements (so "
               "cartesian->keplerian->cartesian is proved on the image of keplerian->cartesian only), (2) termination of the Kepler loop (fuel; covered by "
-              "correspondence with fuel 10^4 and a watchdog oracle), (3) the walk round trip for links that return angles modulo 2 pi as one statement; "
+              "correspondence with fuel 10^4 and a watchdog oracle), (3) the walk round trip for links that return angles modulo 2 pi as one statement "
+              "(setFrame_cartesian_view / setForm_back take the per-link round trips on the visited states as hypothesis, like walk_roundtrip_exact); "
               "R -> double gap covered by tolerance-bounded correspondence; Lean kernel + propext/Classical.choice/Quot.sound; py2lean translator trusted")
-TECHNIQUE = "Lean 4 proof over edge formulas translated from the Python AST (py2lean) on every run; differential correspondence per edge; API oracle"
+TECHNIQUE = ("Lean 4 proof over edge formulas translated from the Python AST (py2lean) on every run and over a state machine of the object interpreting setter "
+             "orders read from the AST; differential correspondence per edge and per operation history; API oracle")
 TRUSTED = [
     "harness/py2lean.py translate_fn/translate_expr: Python AST of the 17 `_a_to_b` methods, M2E pieces and 13 Infos properties -> Generated/Forms{F,R}.lean on every run",
     "harness/props/C01.py m2e_pieces: checks that the M2E loop and the mean->eccentric edge still have exactly the modelled shape (AST equality), else the run is reported broken",
+    "harness/props/C01.py sv_tables: reads the order of the effects of the form setter, the frame setter and copy, and the two keys of the infos property, from the AST into Generated/SVTables.lean; "
+    "checks by AST equality that Infos.__init__/kep/sphe/mu/r, Form.__call__ and Frame.transform have the modelled shape, else the run is reported broken",
     "lean/templates/Forms.tpl: hand-written fuel loop, 6-list plumbing, name dispatch (tied by the correspondence run)",
+    "lean/templates/SVMachine.tpl: hand-written interpreter of the setter steps, name/alias resolution over the regenerated tables, routing by C20's Node.path on the regenerated forms graph (tied by the history correspondence)",
+    "the affine map of a frame change (rotation 6x6, offset of the centres) is an INPUT of the machine, computed from the orientation / centre objects (their correctness belongs to C02/C03)",
     "atan2 y x := Complex.arg (x + iy), Python % := x - m floor(x/m), np.linalg.norm := sqrt of the sum of squares (NumReal.lean / py2lean)",
-    "numpy / libm double arithmetic vs R: correspondence tolerance 1e-9 relative (scaled by the conditioning of arctanh near 1 for hyperbolic anomalies)",
+    "numpy / libm double arithmetic vs R: correspondence tolerance 1e-9 relative (scaled by the conditioning of arctanh near 1 for hyperbolic anomalies); histories: 2e-10 times the accumulated conditioning of the visited states",
 ]
 ASSUMPTIONS = [
     "theorems are over R; the implementation computes in IEEE doubles",
     "domains: off the z axis for spherical/cylindrical; e > 0 (circular forms, equinoctial), 0 < i < pi (equinoctial), 0 <= e < 1 or e > 1 with 1 + e cos(nu) > 0 (anomalies), a > 0 (TLE)",
     "angles are compared as points of the circle (same cos and sin); equality of numbers is proved inside the turn the code itself returns",
+    "histories: every state visited (also the intermediate state of copy(frame=, form=)) lies inside the property's quantifier about the centre of its frame, |H| <= 6, and the numbers written are themselves canonical elements (0 <= e, 0 < i < pi, r > 0 ...)",
 ]
 NOT_COVERED = [
     "cartesian -> keplerian -> cartesian for an ARBITRARY cartesian state: proved on the image of keplerian->cartesian (cart_kepl_cart_of_image); existence of elements for every state with h != 0, sin i != 0, e != 0 is not proved (oracle: independent textbook elements + round trips on the real API)",
@@ -48,17 +116,26 @@ NOT_COVERED = [
     "definition-truth of cartesian->keplerian (a from energy, e = |eccentricity vector|, node, perigee) is checked by the oracle against an independent numpy computation, not proved",
     "spherical rates as time derivatives (HasDerivAt) not proved; oracle uses central differences",
     "conditioning near e->0, i->0, e->1 (excluded by the quantifier); rounding",
+    "an Infos helper KEPT by the caller (`inf = sv.infos`) across an in-place change of sv: the helper memoises its keplerian / spherical views (modelled: Handle) while reading mu live; the property is checked for values read through `sv.infos` after the change, not through a helper obtained before it",
+    "views sharing the buffer (`sv[:]`, `sv.view()`), whose form label can diverge from the shared six numbers; writes of names that are no orbital element (stored in _data)",
+    "frame changes whose transform raises (unlinked centres, Hill frame): only the normal path of try/finally is modelled",
 ]
 OPEN = [
     "surjectivity of keplerian->cartesian onto the non-degenerate cartesian states (would turn cart_kepl_cart_of_image into the unconditional statement)",
     "termination of Form.M2E as a theorem (exists fuel, m2e fuel e M != none) for 0 <= e < 1 after the reduction of b41fd8b, and for e > 1",
-    "walk_roundtrip for paths through links that return angles as circle points: walk_roundtrip_exact is the induction over the path for links with exact round trips; the AngEq version needs 'respects AngEq' for all 18 edges (proved for keplerian->cartesian and keplerian->circular)",
+    "walk_roundtrip for paths through links that return angles as circle points: walk_roundtrip_exact is the induction over the path for links with exact round trips; the AngEq version needs 'respects AngEq' for all 18 edges (proved for keplerian->cartesian and keplerian->circular); the same gap is the RoundTrips hypothesis of setFrame_cartesian_view / setForm_back",
+    "cartesian view invariant under `sv.form = g` for arbitrary f, g (cancellation of the common part of the two tree paths to cartesian): proved only as there-and-back (setForm_back)",
 ]
 RULE = ("correspondence: 2500 (quick) / 40000 (thorough) orbits, alternating ellipse/hyperbola, e in [1e-4,0.99] u [1.001,20], i in [0.01,pi-0.01], "
         "any node/perigee, anomalies incl. M<0, M>2pi, |H|<=8, three bodies; every one of the 18 edge methods on each orbit, StateVector.copy along the "
-        "routed walk for a random pair, Form.M2E on all start branches, 13 Infos values; rtol 1e-9, angles mod 2pi; non-trivial = every case; "
+        "routed walk for a random pair, Form.M2E on all start branches, 13 Infos values; rtol 1e-9, angles mod 2pi; 150 (quick) / 3000 (thorough) random + 15 pinned "
+        "operation histories of 3-12 operations on real StateVector / Orbit objects (made directly, by copy, pickle, as_orbit, numpy arithmetic; some after a read of "
+        "the original) over 16 frames about Earth, Moon, Sun, Mars (constant-offset centres and the moving Moon / Sun of beyond.env.solarsystem), every state inside the "
+        "quantifier, compared after every operation (six numbers, outcome, 14 infos values) with the Lean state machine; non-trivial = every case; "
         "distinct = distinct request line. oracle: mean->cartesian vs an independent perifocal construction, 9 forms x 6 numbers vs textbook "
-        "definitions computed with numpy, 10x10 round trips (1e-6 r, 1e-6 v), Infos relations, Kepler residual of Form.M2E")
+        "definitions computed with numpy, 10x10 round trips (1e-6 r, 1e-6 v), Infos relations, Kepler residual of Form.M2E; 70 (quick) / 500 (thorough) random + 15 pinned "
+        "operation histories: after every operation the six numbers vs the textbook elements of the reference cartesian state for the mu of the CURRENT centre, "
+        "position/velocity directly and through another form, every infos quantity vs its defining relation and vs a freshly constructed object, the untouched original of a copy")
 
 FORMS_PY = os.path.join(core.REPO, "beyond", "orbits", "forms.py")
 SV_PY = os.path.join(core.REPO, "beyond", "orbits", "statevector.py")
@@ -87,6 +164,9 @@ def frames():
             fr.Frame(name, orient.EME2000, center.Center(name, body=b), exists_warning=False)
         out.append(fr.dynamic[name])
     return out
+
+
+unlinked_frames = frames
 
 
 def gen_elements(rng, conic=None):
@@ -296,6 +376,76 @@ def expected_form(form, d, hyper):
     return ks
 
 
+def definition_mismatches(form, got, d, hyper, a, e, i, rs, vs):
+    """(index, element name, observed, textbook value) for every one of the six numbers `got` of `form` that is not the
+    textbook value in `d` (= textbook(mu, cartesian state), with d['z'], d['vz'] added); tolerances of the property text,
+    widened by the conditioning of the element (1/e for the perigee-related angles, 1/sin i for the node-related ones)"""
+    bad = []
+    for idx, kname in enumerate(expected_form(form, d, hyper)):
+        exp = d[kname]
+        g = float(got[idx])
+        if kname in ANG:
+            if kname in ("E", "M", "α") and hyper:
+                # not angles on a hyperbola: compared as numbers (α = ω + M whole)
+                ok = abs(g - exp) <= 1e-6 * max(1.0, abs(exp))
+            else:
+                ok = angdiff(g, exp) <= 2e-6 / (e if kname in ("ω", "ν", "E", "M") and e < 1e-2 else 1.0) / (math.sin(i) if kname in ("Ω", "ω", "u", "α") and math.sin(i) < 0.1 else 1.0)
+        elif kname.endswith("_dot"):
+            sc = {"r_dot": vs, "rho_dot": vs, "θ_dot": vs / d["rho"], "φ_dot": vs / d["rho"]}[kname]
+            ok = abs(g - exp) <= 2e-5 * sc
+        else:
+            sc = {"a": abs(a), "r": rs, "rho": rs, "z": rs, "vz": vs, "n": d.get("n", 1.0)}.get(kname, 1.0)
+            ok = abs(g - exp) <= 1e-6 * sc * (1.0 / math.sin(i) if kname in ("ix", "iy") else 1.0) * (1 + abs(exp) if kname in ("ix", "iy") else 1.0)
+        if not (ok and math.isfinite(g)):
+            bad.append((idx, kname, g, exp))
+    return bad
+
+
+def infos_relations(inf, mu, rbody, truth, a, e, hyper):
+    """[(name, observed, value by the defining relation, scale)] for every quantity of the Infos object `inf`, the relations
+    being evaluated on the cartesian state `truth` with the `mu` / equatorial radius of the central body; a quantity that
+    raises ValueError where it is defined has observed = 'raises', an undefined one that does not raise has 'no-raise'"""
+    import numpy as np
+
+    def g(nm):
+        try:
+            v = getattr(inf, nm)
+        except ValueError:
+            return "raises"
+        return v.total_seconds() if hasattr(v, "total_seconds") else v
+    rs, vn = float(np.linalg.norm(truth[:3])), float(np.linalg.norm(truth[3:]))
+    h = float(np.linalg.norm(np.cross(truth[:3], truth[3:])))
+    rv = float(np.dot(truth[:3], truth[3:]))
+    energy = vn * vn / 2 - mu / rs
+    nmean = math.sqrt(mu / abs(a) ** 3)
+    cf, sf = g("cos_fpa"), g("sin_fpa")
+    checks = [("v", g("v"), vn, vn), ("energy", g("energy"), energy, abs(energy)), ("r", g("r"), rs, rs),
+              ("pericenter", g("pericenter"), a * (1 - e), abs(a)), ("rp", g("rp"), a * (1 - e), abs(a)),
+              ("vp", g("vp"), h / (a * (1 - e)), vn), ("n", g("n"), nmean, nmean),
+              ("cos_fpa", cf, h / (rs * vn), 1.0), ("sin_fpa", sf, rv / (rs * vn), 1.0),
+              ("fpa", g("fpa"), math.atan2(rv, h), 1.0),
+              ("cos2+sin2", "raises" if isinstance(cf, str) or isinstance(sf, str) else cf ** 2 + sf ** 2, 1.0, 1.0),
+              ("zp", g("zp"), a * (1 - e) - rbody, abs(a))]
+    if hyper:
+        checks += [("vinf", g("vinf"), math.sqrt(2 * energy), vn), ("dinf", g("dinf"), h / math.sqrt(2 * energy), abs(a) * e),
+                   ("type", float(inf.type == "hyperbolic"), 1.0, 1.0)]
+        for nm in ("period", "apocenter", "va"):
+            if g(nm) != "raises":
+                checks.append((nm, "no-raise", None, None))
+    else:
+        per = TWO_PI * math.sqrt(a ** 3 / mu)
+        checks += [("period", g("period"), per, per),
+                   ("apocenter", g("apocenter"), a * (1 + e), a), ("ra", g("ra"), a * (1 + e), a), ("va", g("va"), h / (a * (1 + e)), vn),
+                   ("za", g("za"), a * (1 + e) - rbody, a), ("type", float(inf.type == "elliptic"), 1.0, 1.0)]
+    return checks
+
+
+def infos_ok(nm, got, exp, sc):
+    if isinstance(got, str):
+        return False
+    return math.isfinite(float(got)) and abs(float(got) - exp) <= 1e-6 * sc + (1e-6 if nm == "period" else 0.0)
+
+
 def orbit_checks(out, fr, k, hyper, a, e, i, Om, om, M, EH):
     """all oracle predicates for one orbit given by mean elements (shared by the sweep and by replay)"""
     import numpy as np
@@ -333,28 +483,11 @@ def orbit_checks(out, fr, k, hyper, a, e, i, Om, om, M, EH):
             continue
         with np.errstate(all="ignore"):
             got = arr(cart.copy(form=form))
-        ks = expected_form(form, d, hyper)
         out.count(key=("def", form, k, a, e, nu), kind="definition-" + form, conic=conic)
-        for idx, kname in enumerate(ks):
-            exp = d[kname]
-            g = float(got[idx])
-            base = kname.split("_")[0]
-            if kname in ANG:
-                if kname in ("E", "M", "α") and hyper:
-                    # not angles on a hyperbola: compared as numbers (α = ω + M whole)
-                    ok = abs(g - exp) <= 1e-6 * max(1.0, abs(exp))
-                else:
-                    ok = angdiff(g, exp) <= 2e-6 / (e if kname in ("ω", "ν", "E", "M") and e < 1e-2 else 1.0) / (math.sin(i) if kname in ("Ω", "ω", "u", "α") and math.sin(i) < 0.1 else 1.0)
-            elif kname.endswith("_dot"):
-                sc = {"r_dot": vs, "rho_dot": vs, "θ_dot": vs / d["rho"], "φ_dot": vs / d["rho"]}[kname]
-                ok = abs(g - exp) <= 2e-5 * sc
-            else:
-                sc = {"a": abs(a), "r": rs, "rho": rs, "z": rs, "vz": vs, "n": d.get("n", 1.0)}.get(kname, 1.0)
-                ok = abs(g - exp) <= 1e-6 * sc * (1.0 / math.sin(i) if kname in ("ix", "iy") else 1.0) * (1 + abs(exp) if kname in ("ix", "iy") else 1.0)
-            if not (ok and math.isfinite(g)):
-                fam = "mean-circular-hyperbolic-M-mod-2pi" if (hyper and kname == "α") else f"definition-{form}-{kname}-{conic}"
-                out.fail(fam, f"{form}[{idx}] is not the textbook value of {kname} computed from the cartesian state",
-                         dict(inp, cartesian=[float(x) for x in truth]), observed=g, expected=float(exp))
+        for idx, kname, g, exp in definition_mismatches(form, got, d, hyper, a, e, i, rs, vs):
+            fam = "mean-circular-hyperbolic-M-mod-2pi" if (hyper and kname == "α") else f"definition-{form}-{kname}-{conic}"
+            out.fail(fam, f"{form}[{idx}] is not the textbook value of {kname} computed from the cartesian state",
+                     dict(inp, cartesian=[float(x) for x in truth]), observed=g, expected=float(exp))
     # 2. round trips over all ordered pairs
     for src in FORMS:
         if not defined_for(src, hyper):
@@ -377,33 +510,13 @@ def orbit_checks(out, fr, k, hyper, a, e, i, Om, om, M, EH):
                 out.fail(fam, f"{src} -> {dst} -> {src} does not return the same position and velocity",
                          dict(inp, cartesian=[float(x) for x in truth], src=src, dst=dst), observed=[float(x) for x in cb], expected=[float(x) for x in truth])
     # 3. Infos: defining relations
-    inf = cart.infos
-    vn = vs
-    h = np.linalg.norm(np.cross(truth[:3], truth[3:]))
-    energy = vn * vn / 2 - mu / rs
-    checks = [("v", inf.v, vn, vn), ("energy", inf.energy, energy, abs(energy)), ("r", inf.r, rs, rs),
-              ("pericenter", inf.pericenter, a * (1 - e), abs(a)), ("rp", inf.rp, a * (1 - e), abs(a)),
-              ("vp", inf.vp, h / (a * (1 - e)), vn), ("n", inf.n, math.sqrt(mu / abs(a) ** 3), math.sqrt(mu / abs(a) ** 3)),
-              ("cos_fpa", inf.cos_fpa, h / (rs * vn), 1.0), ("sin_fpa", inf.sin_fpa, float(np.dot(truth[:3], truth[3:])) / (rs * vn), 1.0),
-              ("fpa", inf.fpa, math.atan2(float(np.dot(truth[:3], truth[3:])), h), 1.0),
-              ("cos2+sin2", inf.cos_fpa ** 2 + inf.sin_fpa ** 2, 1.0, 1.0),
-              ("zp", inf.zp, a * (1 - e) - fr.center.body.equatorial_radius, abs(a))]
-    if hyper:
-        checks += [("vinf", inf.vinf, math.sqrt(2 * energy), vn), ("dinf", inf.dinf, h / math.sqrt(2 * energy), abs(a) * e),
-                   ("type", float(inf.type == "hyperbolic"), 1.0, 1.0)]
-        for nm in ("period", "apocenter", "va"):
-            try:
-                getattr(inf, nm)
-                out.fail("infos-" + nm + "-hyperbolic", f"infos.{nm} of a hyperbolic orbit does not raise", inp)
-            except ValueError:
-                pass
-    else:
-        checks += [("period", inf.period.total_seconds(), TWO_PI * math.sqrt(a ** 3 / mu), TWO_PI * math.sqrt(a ** 3 / mu)),
-                   ("apocenter", inf.apocenter, a * (1 + e), a), ("ra", inf.ra, a * (1 + e), a), ("va", inf.va, h / (a * (1 + e)), vn),
-                   ("za", inf.za, a * (1 + e) - fr.center.body.equatorial_radius, a), ("type", float(inf.type == "elliptic"), 1.0, 1.0)]
-    for nm, got, exp, sc in checks:
+    for nm, got, exp, sc in infos_relations(cart.infos, mu, fr.center.body.equatorial_radius, truth, a, e, hyper):
         out.count(key=("infos", nm, k, a, e, nu), kind="infos", conic=conic)
-        if not (math.isfinite(float(got)) and abs(float(got) - exp) <= 1e-6 * sc + (1e-6 if nm == "period" else 0.0)):
+        if got == "no-raise":
+            out.fail("infos-" + nm + "-hyperbolic", f"infos.{nm} of a hyperbolic orbit does not raise", inp)
+        elif got == "raises":
+            out.fail(f"infos-{nm}-{conic}-raises", f"infos.{nm} raises ValueError where it is defined", inp)
+        elif not infos_ok(nm, got, exp, sc):
             out.fail(f"infos-{nm}-{conic}", f"infos.{nm} violates its defining relation", dict(inp, cartesian=[float(x) for x in truth]),
                      observed=float(got), expected=float(exp))
 
@@ -449,9 +562,667 @@ def oracle(ctx, widened):
             fam = "m2e-hyperbolic-start-overflow" if (hyper and not math.isfinite(got) and abs(start_value(e, M)) > 709.0) else "m2e-residual-" + branch(e, M)
             out.fail(fam, "Form.M2E does not return a solution of Kepler's equation inside the property's domain",
                      {"e": e, "M": M, "true_E_or_H": EH, "start_value": start_value(e, M) if hyper else None}, observed=got, expected=EH)
-    out.sample({"checks": "mean->cartesian vs textbook, definition truth of 9 forms, 10x10 round trips, infos relations, M2E residual"})
+    # 5. histories of in-place operations on one object (element / slice / name assignment, in-place arithmetic, form and frame
+    #    setters, copy(frame=, form=), infos reads), several central bodies: every observable equals the pure function of the current state
+    hf = hist_frames()
+    skipped = []
+    for n in range((500 if big else 70) + 1):
+        try:
+            for init, ops in ([gen_history(rng, hf, rng.randint(3, 14))] if n else pinned_histories(hf)):
+                run_history(init, ops, hf, out)
+        except Exception as ex:      # the reference is built with conversions of fresh objects: a library whose conversions are broken can make that impossible
+            skipped.append(repr(ex))
+            out.tally("history skipped: the reference could not be built (a conversion of a fresh object failed)")
+    if skipped and not out.failures:
+        raise RuntimeError(f"{len(skipped)} histories could not be run and nothing else fails: {skipped[0]}")
+    out.sample({"checks": "mean->cartesian vs textbook, definition truth of 9 forms, 10x10 round trips, infos relations, M2E residual, "
+                          "operation histories on one object vs the cache-free reference semantics"})
     return out
 
+
+def pinned_histories(hf):
+    """hand-made histories that always run: read / modify in place / read again on every kind of write, and a change of centre
+    (Earth -> Moon, both the constant-offset centre and the one of beyond.env.solarsystem) in every mu-dependent form"""
+    by = {f["name"]: f["id"] for f in hf}
+    out = []
+    six = [7.2e6, 0.05, 0.9, 1.0, 2.0, 0.7]
+    rd = {"op": "infos", "how": "one-helper"}
+    rd2 = {"op": "infos", "how": "per-access"}
+    out.append(({"kind": "StateVector", "six": six, "form": "keplerian", "frame": by["EME2000"], "date": [2020, 1, 1]},
+                [rd, {"op": "setn", "name": "a", "v": 4.2164e7, "how": "attr"}, {"op": "setn", "name": "e", "v": 0.3, "how": "item"}, rd2,
+                 {"op": "form", "name": "cartesian", "how": "string"}, rd, {"op": "muls", "lo": 3, "hi": 6, "k": 1.1}, rd2,
+                 {"op": "frame", "id": by["MOD"], "how": "name"}, rd, {"op": "seti", "i": 0, "v": 9.0e6}, rd]))
+    # a lunar orbit seen from the Earth, taken back to a Moon-centred frame in each mu-dependent form
+    import numpy as np
+    from beyond.dates import Date
+    for moon in ("C01h_Moon_EME2000", "Moon"):
+        for n, form in enumerate(MU_FORMS):
+            date = [2021, 3, 4, 12]
+            ref = Ref([6.0e6, 0.5, 1.1, 0.4, 2.2, 4.0], Date(*date), "keplerian", hf[by[moon]])
+            r2 = ref._to_frame(hf[by["EME2000"]])
+            q = state_quality(r2.mu, r2.x)
+            if q is None or (q["e"] > 1 and form == "tle"):
+                continue
+            r2.form = form
+            r2.six = r2._view(form)
+            out.append(({"kind": "StateVector" if n % 2 else "Orbit", "six": r2.six, "form": form, "frame": by["EME2000"], "date": date},
+                        [{"op": "frame", "id": by[moon], "how": "object"}, rd2] if n % 3 else [rd, {"op": "copy", "id": by[moon], "how": "kwargs"}, rd]))
+    return out
+
+
+
+# ---------------------------------------------------------------- histories of in-place operations on one object
+#
+# Reference semantics (independent of the object under test, cache-free): the state is (six numbers, form, frame,
+# cartesian state x about the frame's centre).  A write changes the six numbers and x is recomputed from them by a
+# conversion on a FRESH object; a form change leaves x alone; a frame change maps x by the affine map between the
+# frames (rotation and offset taken from the orientation / centre objects, applied with numpy).  Every observable of
+# the real object after every operation must equal the pure function of (x, mu of the current centre).
+
+HIST = {}
+MU_FORMS = ("keplerian", "keplerian_eccentric", "keplerian_mean", "keplerian_circular", "keplerian_mean_circular", "equinoctial", "tle")
+RBODY = {"Earth": 6.4e6, "Moon": 1.8e6, "Sun": 7e8, "Mars": 3.4e6}
+# offsets (m, m/s) of the centres made for this check, relative to the Earth, EME2000 axes
+HIST_OFFSETS = {
+    "Moon": [3.2e8, -1.9e8, 0.9e8, 450.0, 850.0, 200.0],
+    "Sun": [1.2e11, -0.8e11, -0.35e11, 16000.0, 24000.0, 9000.0],
+    "Mars": [-0.3e11, -2.4e11, -0.95e11, 34000.0, 10000.0, 2000.0],
+}
+
+
+def hist_frames():
+    """frames used by the histories: Earth-centred built-in ones (several orientations, one rotating), frames about
+    centres with other bodies (Moon, Sun, Mars) linked to the Earth by a constant offset — two orientations each —,
+    and the Moon / Sun frames of beyond.env.solarsystem (moving centres).  List of dicts, index = the id the model uses."""
+    if HIST:
+        return HIST["frames"]
+    import numpy as np
+    from beyond.frames import frames as fr, orient, center
+    from beyond import constants
+    from beyond.env import solarsystem
+    out = []
+    for n in ("EME2000", "MOD", "TOD", "TEME", "G50", "GCRF", "ITRF"):
+        out.append({"frame": fr.get_frame(n), "centre": "Earth", "body": constants.Earth})
+    for bn, off in HIST_OFFSETS.items():
+        body = getattr(constants, bn)
+        c = center.Center("C01h_" + bn, body=body)
+        c.add_link(center.Earth, orient.EME2000, np.array(off))
+        for on in ("EME2000", "MOD"):
+            f = fr.Frame(f"C01h_{bn}_{on}", getattr(orient, on), c, exists_warning=False)
+            out.append({"frame": f, "centre": "C01h_" + bn, "body": body})
+    import logging
+    logging.getLogger("beyond.frames.frames").setLevel(logging.ERROR)
+    for bn in ("Moon", "Sun"):
+        f = solarsystem.get_frame(bn)
+        out.append({"frame": f, "centre": "ss" + bn, "body": getattr(constants, bn)})
+    for i, d in enumerate(out):
+        d["id"] = i
+        d["name"] = d["frame"].name
+    HIST["frames"] = out
+    return out
+
+
+def affine_between(old, new, date):
+    """(6x6 matrix, offset) of the change of frame old -> new at `date`, from the orientation and centre objects"""
+    import numpy as np
+    key = (old.name, new.name, str(date))
+    c = HIST.setdefault("affine", {})
+    if key not in c:
+        m = np.array(old.orientation.convert_to(date, new.orientation), dtype=float)
+        off = np.array(old.center.convert_to(date, new.center, new.orientation), dtype=float).reshape(6)
+        c[key] = (m, off)
+    return c[key]
+
+
+def fresh(six, date, form, frame):
+    from beyond.orbits import StateVector
+    return StateVector([float(v) for v in six], date, form, frame)
+
+
+def state_quality(mu, x):
+    """None if the cartesian state is outside the property's quantifier (or so close to a singularity of some form
+    that 1e-6 is not attainable in doubles), else the dict of its textbook elements"""
+    import numpy as np
+    if not np.all(np.isfinite(x)):
+        return None
+    try:
+        d = textbook(mu, x)
+    except (ValueError, ZeroDivisionError, FloatingPointError):
+        return None
+    e, i = d["e"], d["i"]
+    if not (all(math.isfinite(float(v)) for v in d.values())):
+        return None
+    sl = 1e-7     # the boundary values themselves (e = 1e-4, 0.99, 1.001, 20; i = 0.01, pi - 0.01) are inside, whatever the rounding
+    if not ((1e-4 * (1 - sl) <= e <= 0.99 + sl) or (1.001 - sl <= e <= 20.0 + sl)):
+        return None
+    if not (0.01 - sl <= i <= math.pi - 0.01 + sl):
+        return None
+    if d["rho"] < 1e-2 * d["r"]:
+        return None
+    if e > 1 and (abs(d["E"]) > 6.0 or 1 + e * math.cos(d["ν"]) < 1e-3):
+        return None
+    if e < 1 and d["a"] <= 0 or e > 1 and d["a"] >= 0:
+        return None
+    d["z"], d["vz"] = float(x[2]), float(x[5])
+    return d
+
+
+class Ref:
+    """the reference semantics of one object"""
+
+    def __init__(self, six, date, form, fe, x=None):
+        import numpy as np
+        self.six = [float(v) for v in six]
+        self.date, self.form, self.fe = date, form, fe
+        with np.errstate(all="ignore"):
+            self.x = arr(fresh(six, date, form, fe["frame"]).copy(form="cartesian")) if x is None else np.array(x, dtype=float)
+        self.mu = fe["body"].mu
+
+    def clone(self):
+        return Ref(self.six, self.date, self.form, self.fe, self.x)
+
+    def _view(self, form):
+        import numpy as np
+        with np.errstate(all="ignore"):
+            return [float(v) for v in arr(fresh(self.x, self.date, "cartesian", self.fe["frame"]).copy(form=form))]
+
+    def apply(self, op, frames):
+        """the state after `op` and what the operation must report ('D' done, 'A' AttributeError/KeyError, 'U' UnknownFormError)"""
+        import numpy as np
+        from beyond.orbits import forms
+        r = self.clone()
+        k = op["op"]
+        tag = "D"
+        if k in ("seti", "muls", "adds", "sets", "setn"):
+            six = list(r.six)
+            if k == "seti":
+                six[op["i"]] = op["v"]
+            elif k == "muls":
+                for j in range(op["lo"], op["hi"]):
+                    six[j] = six[j] * op["k"]
+            elif k == "adds":
+                for j in range(op["lo"], op["hi"]):
+                    six[j] = six[j] + op["k"]
+            elif k == "sets":
+                for j, v in enumerate(op["vs"]):
+                    six[op["lo"] + j] = v
+            else:
+                name = forms.Form.alt.get(op["name"], op["name"])
+                pn = forms._cache[r.form].param_names
+                if name in pn:
+                    six[pn.index(name)] = op["v"]
+                else:
+                    return r, ("A" if name in forms._cache_param_names else "D")
+            return Ref(six, r.date, r.form, r.fe), tag
+        if k == "form":
+            t = forms._cache.get(op["name"].lower())
+            if t is None:
+                return r, "U"
+            if t.name != r.form:
+                r.form = t.name
+                r.six = r._view(t.name)
+            return r, tag
+        if k == "frame":
+            return r._to_frame(frames[op["id"]]), tag
+        if k == "copy":
+            if op.get("id") is not None:
+                r = r._to_frame(frames[op["id"]])
+            if op.get("name") is not None:
+                r, tag = r.apply({"op": "form", "name": op["name"]}, frames)
+            return r, tag
+        if k == "infos":
+            return r, "I"
+        raise ValueError(k)
+
+    def _to_frame(self, fe):
+        r = self.clone()
+        if fe["frame"] is r.fe["frame"]:
+            return r
+        m, off = affine_between(r.fe["frame"], fe["frame"], r.date)
+        r.x = m @ r.x + off
+        r.fe, r.mu = fe, fe["body"].mu
+        r.six = r._view(r.form)
+        return r
+
+
+INFOS_READ = ["r", "energy", "n", "period", "apocenter", "pericenter", "v", "va", "vp", "vinf", "dinf", "cos_fpa", "sin_fpa", "fpa"]   # "r" + INFOS
+INFOS_MORE = ["zp", "za", "ra", "rp"]
+
+
+def read_infos(sv, per_access):
+    """the 14 modelled quantities (None where ValueError is raised) — through ONE helper (`inf = sv.infos`) or through a
+    new access `sv.infos` per quantity"""
+    inf = None if per_access else sv.infos
+    vals = []
+    for nm in INFOS_READ:
+        try:
+            v = getattr(sv.infos if per_access else inf, nm)
+            vals.append(float(v.total_seconds()) if hasattr(v, "total_seconds") else float(v))
+        except ValueError:
+            vals.append(None)
+    return vals
+
+
+def real_apply(sv, op, frames):
+    """perform `op` on the real object; returns (object to continue with, tag, infos values or None)"""
+    import numpy as np
+    from beyond.orbits import forms
+    from beyond.errors import UnknownFormError
+    k = op["op"]
+    try:
+        with np.errstate(all="ignore"):
+            if k == "seti":
+                sv[op["i"]] = op["v"]
+            elif k == "muls":
+                sv[op["lo"]:op["hi"]] *= op["k"]
+            elif k == "adds":
+                sv[op["lo"]:op["hi"]] += op["k"]
+            elif k == "sets":
+                sv[op["lo"]:op["lo"] + len(op["vs"])] = op["vs"]
+            elif k == "setn":
+                if op.get("how") == "item":
+                    sv[op["name"]] = op["v"]
+                else:
+                    setattr(sv, op["name"], op["v"])
+            elif k == "form":
+                sv.form = forms.get_form(op["name"]) if op.get("how") == "object" else op["name"]
+            elif k == "frame":
+                sv.frame = frames[op["id"]]["name"] if op.get("how") == "name" else frames[op["id"]]["frame"]
+            elif k == "copy":
+                kw = {}
+                if op.get("id") is not None:
+                    kw["frame"] = frames[op["id"]]["frame"]
+                if op.get("name") is not None:
+                    kw["form"] = op["name"]
+                if op.get("how") == "same" and len(kw) == 2:
+                    from beyond.orbits import StateVector
+                    tmpl = StateVector([1.0] * 6, sv.date, forms.get_form(op["name"]), kw["frame"])
+                    sv = sv.copy(same=tmpl)
+                else:
+                    sv = sv.copy(**kw)
+            elif k == "infos":
+                return sv, "I", read_infos(sv, op.get("how") == "per-access")
+            else:
+                raise ValueError(k)
+    except (AttributeError, KeyError):
+        return sv, "A", None
+    except UnknownFormError:
+        return sv, "U", None
+    return sv, "D", None
+
+
+def make_object(init, frames):
+    """the object a history starts from, built the way `init['kind']` says; returns (object, sibling or None)"""
+    import pickle
+    from beyond.orbits import StateVector, Orbit
+    from beyond.dates import Date
+    date = Date(*init["date"])
+    fe = frames[init["frame"]]
+    frame = fe["name"] if init.get("frame_by_name") else fe["frame"]
+    kind = init["kind"]
+    sib = None
+    if kind == "Orbit":
+        sv = Orbit(init["six"], date, init["form"], frame, None)
+    else:
+        sv = StateVector(init["six"], date, init["form"], frame)
+        if kind == "copy":
+            sv = sv.copy()
+        elif kind == "pickle":
+            sv = pickle.loads(pickle.dumps(sv))
+        elif kind == "as_orbit":
+            sv = sv.as_orbit(None)
+        elif kind == "copy-after-read":
+            sib = sv
+            read_infos(sib, False)
+            sv = sib.copy()
+        elif kind == "pickle-after-read":
+            sib = sv
+            read_infos(sib, True)
+            sv = pickle.loads(pickle.dumps(sib))
+        elif kind == "arith-after-read":
+            # the result of numpy arithmetic is a new object made by __array_finalize__ from the one that was read
+            sib = sv
+            read_infos(sib, False)
+            sv = sib + 0.0
+    return sv, sib, date
+
+
+def op_tokens(op, ref_before, frames):
+    """the operation in the line protocol of the Lean driver (`hist …`)"""
+    k = op["op"]
+    if k == "seti":
+        return ["seti", str(op["i"]), f2b(op["v"])]
+    if k == "setn":
+        return ["setn", op["name"], f2b(op["v"])]
+    if k in ("muls", "adds"):
+        return [k, str(op["lo"]), str(op["hi"]), f2b(op["k"])]
+    if k == "sets":
+        return ["sets", str(op["lo"]), str(len(op["vs"]))] + [f2b(v) for v in op["vs"]]
+    if k == "form":
+        return ["form", op["name"]]
+
+    def fr_toks(i):
+        fe = frames[i]
+        if fe["frame"] is ref_before.fe["frame"]:
+            import numpy as np
+            m, off = np.identity(6), np.zeros(6)
+        else:
+            m, off = affine_between(ref_before.fe["frame"], fe["frame"], ref_before.date)
+        return [str(i), f2b(fe["body"].mu)] + [f2b(v) for v in m.reshape(36)] + [f2b(v) for v in off]
+    if k == "frame":
+        return ["frame"] + fr_toks(op["id"])
+    if k == "copy":
+        t = ["copy"]
+        t += (["1"] + fr_toks(op["id"])) if op.get("id") is not None else ["0"]
+        t += ["1", op["name"]] if op.get("name") is not None else ["0"]
+        return t
+    if k == "infos":
+        return ["infos"]
+    raise ValueError(k)
+
+
+ALIASES = None
+
+
+def _aliases():
+    global ALIASES
+    if ALIASES is None:
+        from beyond.orbits import forms
+        by = {}
+        for al, nm in forms.Form.alt.items():
+            by.setdefault(nm, []).append(al)
+        names = {}
+        for al, f in forms._cache.items():
+            names.setdefault(f.name, []).append(al)
+        ALIASES = (by, names)
+    return ALIASES
+
+
+def form_name_variant(rng, canonical):
+    """one of the accepted spellings of a form name (`forms._cache` aliases, any case)"""
+    n = rng.choice(_aliases()[1][canonical])
+    r = rng.random()
+    return n.upper() if r < 0.1 else n.capitalize() if r < 0.2 else n
+
+
+def gen_start(rng, frames):
+    """an object description inside the quantifier: elements about one centre, often such that the state is also inside
+    the quantifier about another centre with a different body (so that a change of centre is possible later)"""
+    import numpy as np
+    for _ in range(200):
+        fe = rng.choice(frames)
+        bn = fe["body"].name
+        date = rng.choice([(2020, 1, 1), (2021, 3, 4, 12), (2018, 7, 20, 6, 30)])
+        from beyond.dates import Date
+        d = Date(*date)
+        hyper = rng.random() < 0.35
+        rb = RBODY[bn]
+        if hyper:
+            e = rng.choice([1.001, 1.2, 1.59, 3.61, 20.0]) if rng.random() < 0.2 else 1.001 + (rng.random() ** 2) * 18.999
+            a = -rb * math.exp(rng.uniform(0.0, 4.0))
+            H = rng.uniform(-4, 4)
+            M, EH = e * math.sinh(H) - H, H
+        else:
+            e = rng.choice([1e-4, 0.002, 0.5, 0.99]) if rng.random() < 0.2 else rng.uniform(1e-4, 0.99)
+            a = rb * math.exp(rng.uniform(0.05, 4.0))
+            EH = rng.uniform(-TWO_PI, 2 * TWO_PI)
+            M = EH - e * math.sin(EH)
+        i = rng.choice([0.01, math.pi / 2, math.pi - 0.01, 1.0, 2.5]) if rng.random() < 0.15 else rng.uniform(0.01, math.pi - 0.01)
+        Om, om = rng.uniform(0, TWO_PI), rng.uniform(0, TWO_PI)
+        mu = fe["body"].mu
+        nu = nu_from_anomaly(hyper, e, EH)
+        src = source_coords(mu, hyper, a, e, i, Om, om, M, EH, nu, rng)
+        x = np.array(src["cartesian"])
+        if state_quality(mu, x) is None:
+            continue
+        form = rng.choice(sorted(src))
+        kind = rng.choice(["StateVector", "StateVector", "Orbit", "copy", "pickle", "as_orbit", "copy-after-read", "pickle-after-read", "arith-after-read"])
+        return {"kind": kind, "six": [float(v) for v in src[form]], "form": form, "frame": fe["id"], "date": list(date),
+                "frame_by_name": rng.random() < 0.3}
+    raise RuntimeError("no start state found")
+
+
+def propose_op(rng, ref, frames, reads_pending):
+    """a random operation on an object whose reference state is `ref` (no check yet that the result stays inside the quantifier)"""
+    from beyond.orbits import forms
+    r = rng.random()
+    hyper = state_quality(ref.mu, ref.x)["e"] > 1
+    pn = forms._cache[ref.form].param_names
+    if r < 0.22:
+        return {"op": "infos", "how": rng.choice(["one-helper", "per-access"])}
+    if r < 0.42:
+        t = rng.choice([f for f in FORMS if defined_for(f, hyper)])
+        return {"op": "form", "name": form_name_variant(rng, t), "how": rng.choice(["string", "object"])}
+    if r < 0.57:
+        # prefer a frame about another body
+        cand = [f for f in frames if f["body"] is not ref.fe["body"]] if rng.random() < 0.6 else frames
+        fe = rng.choice(cand)
+        return {"op": "frame", "id": fe["id"], "how": rng.choice(["object", "name"])}
+    if r < 0.65:
+        op = {"op": "copy", "how": rng.choice(["kwargs", "same"])}
+        if rng.random() < 0.6:
+            op["id"] = rng.choice(frames)["id"]
+        if rng.random() < 0.7:
+            op["name"] = form_name_variant(rng, rng.choice([f for f in FORMS if defined_for(f, hyper)]))
+        return op
+    if r < 0.68:
+        # a name of another form (or no element at all): AttributeError / KeyError, state unchanged
+        others = sorted(set(forms._cache_param_names) - set(pn)) + ["comment"]
+        return {"op": "setn", "name": rng.choice(others), "v": rng.uniform(-1, 1), "how": rng.choice(["attr", "item"])}
+    # in-place writes
+    ang = set(ANGLE_IDX[ref.form])
+    if hyper and ref.form in ("keplerian_eccentric", "keplerian_mean", "keplerian_mean_circular"):
+        ang -= {5}
+    w = rng.random()
+    if ref.form == "cartesian" and w < 0.5:
+        lo, hi = rng.choice([(0, 3), (3, 6), (0, 6), (3, 4), (2, 3)])
+        return {"op": "muls", "lo": lo, "hi": hi, "k": rng.uniform(0.8, 1.2)}
+    if w < 0.25:
+        # a whole new orbit about the same centre, written through a slice
+        for _ in range(20):
+            st = gen_start(rng, [ref.fe])
+            f = fresh(st["six"], ref.date, st["form"], ref.fe["frame"])
+            h2 = state_quality(ref.mu, arr(f.copy(form="cartesian")))["e"] > 1
+            if defined_for(ref.form, h2):
+                return {"op": "sets", "lo": 0, "vs": [float(v) for v in arr(f.copy(form=ref.form))]}
+    j = rng.randrange(6)
+    cur = ref.six[j]
+    if j in ang:
+        v = rng.uniform(-TWO_PI, 2 * TWO_PI)
+        if w < 0.6:
+            return {"op": "adds", "lo": j, "hi": j + 1, "k": rng.uniform(-2.0, 2.0)}
+    else:
+        v = cur * rng.uniform(0.85, 1.15) if cur != 0 else rng.uniform(-1, 1)
+        if w < 0.45:
+            return {"op": "muls", "lo": j, "hi": j + 1, "k": rng.uniform(0.85, 1.15)}
+    if w < 0.8:
+        by = _aliases()[0]
+        name = rng.choice([pn[j]] + by.get(pn[j], []))
+        return {"op": "setn", "name": name, "v": v, "how": rng.choice(["attr", "item"])}
+    return {"op": "seti", "i": j, "v": v}
+
+
+def gen_history(rng, frames, n_ops):
+    """(init, [op …]): a start object and a history of operations every state of which lies inside the quantifier"""
+    init = gen_start(rng, frames)
+    from beyond.dates import Date
+    ref = Ref(init["six"], Date(*init["date"]), init["form"], frames[init["frame"]])
+    ops = []
+    for _ in range(n_ops):
+        for _try in range(12):
+            op = propose_op(rng, ref, frames, None)
+            try:
+                r2, tag = ref.apply(op, frames)
+            except Exception:
+                continue
+            q = state_quality(r2.mu, r2.x)
+            if q is None or (q["e"] > 1 and r2.form == "tle"):
+                continue
+            if op["op"] == "copy" and op.get("id") is not None:
+                # copy() changes the frame first, in the form the object has: that intermediate state must be inside the quantifier too
+                mid = ref._to_frame(frames[op["id"]])
+                qm = state_quality(mid.mu, mid.x)
+                if qm is None or (qm["e"] > 1 and mid.form == "tle"):
+                    continue
+            if op["op"] in ("seti", "muls", "adds", "sets", "setn") and r2.form != "cartesian":
+                # the numbers written must themselves be elements inside the quantifier (0 <= e, 0 < i < pi, r > 0, |phi| < pi/2 …):
+                # they are the canonical elements of the state they describe
+                import numpy as np
+                if definition_mismatches(r2.form, r2.six, q, q["e"] > 1, q["a"], q["e"], q["i"], float(np.linalg.norm(r2.x[:3])), float(np.linalg.norm(r2.x[3:]))):
+                    continue
+            ops.append(op)
+            ref = r2
+            break
+    if not ops or ops[-1]["op"] != "infos":
+        ops.append({"op": "infos", "how": "per-access"})
+    return init, ops
+
+
+def history_family(op, ref_before, ref_after, wrote_since_read):
+    """where in the space of operations a failure sits"""
+    k = op["op"]
+    if k in ("seti", "muls", "adds", "sets", "setn"):
+        return f"write-{k}-{ref_before.form}"
+    if k == "form":
+        return f"form-{ref_before.form}-to-{ref_after.form}"
+    if k in ("frame", "copy"):
+        same = "same-body" if ref_before.fe["body"] is ref_after.fe["body"] else "other-body"
+        if ref_before.fe["frame"] is ref_after.fe["frame"]:
+            same = "same-frame"
+        return f"{k}-{same}-{'mu-form' if ref_after.form in MU_FORMS else 'geometric-form'}"
+    return "infos-" + ("after-write" if wrote_since_read else "no-write")
+
+
+def run_history(init, ops, frames, out=None, want_tokens=False):
+    """drive a real object through `ops`; after every operation compare every observable with the reference semantics
+    (`out`: oracle outcome to report into).  Returns the list of per-step records for the correspondence."""
+    import numpy as np
+    sv, sib, date = make_object(init, frames)
+    ref = Ref(init["six"], date, init["form"], frames[init["frame"]])
+    sib_six = None if sib is None else arr(sib).copy()
+    steps = []
+    changed_since_read = init["kind"].endswith("after-read")   # the helper of the sibling was read before the copy was taken
+    hist_input = {"init": init, "ops": ops}
+    n_fail0 = 0 if out is None else len(out.failures)
+    for n, op in enumerate(ops):
+        before = ref
+        toks = op_tokens(op, before, frames) if want_tokens else None
+        try:
+            with watchdog(10.0):
+                ref, tag = before.apply(op, frames)
+                sv, rtag, vals = real_apply(sv, op, frames)
+        except Hang:
+            if out is not None:
+                out.fail("history-no-return", "an operation of this history does not return within 10 s", dict(hist_input, step=n))
+            break
+        if tag == "D":
+            changed_since_read = True      # any operation other than a read may have changed what a memo was taken for
+        six = arr(sv).copy()
+        q = state_quality(ref.mu, ref.x)
+        fam0 = "history-" + history_family(op, before, ref, changed_since_read)
+        steps.append({"toks": toks, "tag": rtag, "six": [float(v) for v in six], "infos": vals, "form": ref.form, "mu": ref.mu,
+                      "q": q, "x": ref.x, "fam": fam0, "step": n})
+        if out is not None:
+            conic = "hyp" if q["e"] > 1 else "ell"
+            out.count(key=("hist", n, repr(op), init["six"][0]), kind="history-" + op["op"], conic=conic,
+                      **({"centre": ref.fe["body"].name} if op["op"] in ("frame", "copy", "infos") else {}),
+                      **({"change": fam0.split("-", 2)[2]} if op["op"] in ("frame", "copy") else {}),
+                      **({"infos": "after-change" if changed_since_read else "unchanged"} if op["op"] == "infos" else {}))
+            inp = dict(hist_input, step=n, body=ref.fe["body"].name, frame=ref.fe["name"], form=ref.form)
+            if history_checks(out, sv, six, rtag, tag, vals, ref, q, fam0, inp, op):
+                break       # the object is wrong from here on: later steps would only repeat the finding
+        if op["op"] == "infos":
+            changed_since_read = False
+    if out is not None and steps and len(steps) == len(ops) and len(out.failures) == n_fail0:
+        # a change of frame that cannot be done (centre not linked to the others): it must raise and leave the object as it was
+        # (same frame, same form, the same position and velocity) — the `finally` path of the frame setter
+        q = steps[-1]["q"]
+        target = [f for f in unlinked_frames() if f.center.body is not ref.fe["body"]][len(ops) % 2]
+        raised = False
+        try:
+            sv.frame = target
+        except Exception:
+            raised = True
+        out.count(key=("frame-raises", init["six"][0], len(ops)), kind="history-frame-raises")
+        inp = dict(hist_input, step=len(ops) - 1, then=f"sv.frame = {target.name} (unlinked centre)", body=ref.fe["body"].name, frame=ref.fe["name"], form=ref.form)
+        if not raised:
+            out.fail("history-frame-unlinked-no-raise", "a change to a frame whose centre is not linked to the current one does not raise", inp)
+        else:
+            history_checks(out, sv, arr(sv).copy(), "D", "D", None, ref, q, f"history-frame-raises-{'mu-form' if ref.form in MU_FORMS else 'geometric-form'}", inp, {"op": "frame-raises"})
+    if out is not None and sib is not None:
+        # the object the copy was taken from has not been touched
+        out.count(key=("sibling", init["six"][0], len(ops)), kind="history-sibling")
+        r0 = Ref(init["six"], date, init["form"], frames[init["frame"]])
+        if not np.array_equal(arr(sib), sib_six) or sib.form.name != init["form"]:
+            out.fail("history-sibling-changed", "operations on a copy changed the object it was copied from", hist_input,
+                     observed=[float(v) for v in arr(sib)], expected=[float(v) for v in sib_six])
+        else:
+            q0 = state_quality(r0.mu, r0.x)
+            for nm, got, exp, sc in infos_relations(sib.infos, r0.mu, r0.fe["body"].equatorial_radius, r0.x, q0["a"], q0["e"], q0["e"] > 1):
+                if isinstance(got, str) or not infos_ok(nm, got, exp, sc):
+                    out.fail(f"history-sibling-infos-{nm}", f"infos.{nm} of the untouched original violates its defining relation after operations on its copy",
+                             hist_input, observed=None if isinstance(got, str) else float(got), expected=exp)
+    return steps
+
+
+def history_checks(out, sv, six, rtag, tag, vals, ref, q, fam0, inp, op):
+    """the property's three clauses on the state the object holds NOW (reference: `ref`)"""
+    import numpy as np
+    hyper = q["e"] > 1
+    rs, vs = float(np.linalg.norm(ref.x[:3])), float(np.linalg.norm(ref.x[3:]))
+    if rtag != tag and not (tag == "I" and rtag == "I"):
+        out.fail(fam0 + "-outcome", f"the operation ended as {rtag!r}, expected {tag!r} (D done, A AttributeError/KeyError, U UnknownFormError)", inp,
+                 observed=rtag, expected=tag)
+        return True
+    if sv.form.name != ref.form or sv.frame.name != ref.fe["name"] or sv.frame.center.body.name != ref.fe["body"].name:
+        out.fail(fam0 + "-label", "form / frame of the object after the operation", inp, observed=[sv.form.name, sv.frame.name], expected=[ref.form, ref.fe["name"]])
+        return True
+    if not np.all(np.isfinite(six)):
+        out.fail(fam0 + "-non-finite", "the six numbers are not finite after the operation", inp, observed=[float(v) for v in six], expected=ref.six)
+        return True
+    # clause 2: the six numbers are the textbook elements of the state about the CURRENT centre (its mu)
+    if ref.form == "cartesian":
+        bad = [(j, "xyz"[j % 3] if j < 3 else "v" + "xyz"[j - 3], float(six[j]), float(ref.x[j])) for j in range(6)
+               if abs(six[j] - ref.x[j]) > 1e-6 * (rs if j < 3 else vs)]
+    else:
+        bad = definition_mismatches(ref.form, six, q, hyper, q["a"], q["e"], q["i"], rs, vs)
+    for idx, kname, g, exp in bad[:1]:
+        out.fail(f"{fam0}-definition-{kname}", f"after the operation, {ref.form}[{idx}] is not the textbook value of {kname} for the state the object holds "
+                 f"(cartesian state and mu of the centre of its current frame, {ref.fe['body'].name})", dict(inp, cartesian=[float(v) for v in ref.x]),
+                 observed=g, expected=float(exp))
+        return True
+    # clause 1: the position and velocity the object stands for, directly and through another form
+    with np.errstate(all="ignore"):
+        c1 = arr(sv.copy(form="cartesian"))
+        via = FORMS[(inp["step"] * 7 + len(ref.form)) % len(FORMS)]
+        c2 = arr(sv.copy(form=via).copy(form="cartesian")) if defined_for(via, hyper) else c1
+    for what, c in (("cartesian", c1), (via, c2)):
+        if not (np.all(np.isfinite(c)) and np.linalg.norm(c[:3] - ref.x[:3]) <= 1e-6 * rs and np.linalg.norm(c[3:] - ref.x[3:]) <= 1e-6 * vs):
+            out.fail(f"{fam0}-position-velocity", f"after the operation, the object converted to cartesian (through {what}) is not the position and velocity it must hold",
+                     dict(inp, via=what), observed=[float(v) for v in c], expected=[float(v) for v in ref.x])
+            return True
+    # clause 3: derived quantities, defining relations on the current state, with mu and radius of the current body
+    if op["op"] == "infos":
+        by = dict(zip(INFOS_READ, vals))
+        rel = infos_relations(sv.infos, ref.mu, ref.fe["body"].equatorial_radius, ref.x, q["a"], q["e"], hyper)
+        for nm, got, exp, sc in rel:
+            if nm in by and by[nm] is not None and not isinstance(got, str):
+                got = by[nm]     # the value read as the operation itself
+            if isinstance(got, str):
+                out.fail(f"{fam0}-{nm}-{got}", f"infos.{nm}: {'no ValueError although the orbit the object holds now is hyperbolic' if got == 'no-raise' else 'ValueError although it is defined for the orbit the object holds now'}", inp)
+                return True
+            if not infos_ok(nm, got, exp, sc):
+                out.fail(f"{fam0}-{nm}", f"infos.{nm} does not obey its defining relation for the state the object holds now "
+                         f"(central body {ref.fe['body'].name})", dict(inp, cartesian=[float(v) for v in ref.x]), observed=float(got), expected=float(exp))
+                return True
+        # … and equal to what a freshly constructed object with the same cartesian values, frame and date reports
+        fr_vals = read_infos(fresh(ref.x, ref.date, "cartesian", ref.fe["frame"]), False)
+        for nm, a_, b_ in zip(INFOS_READ, vals, fr_vals):
+            if (a_ is None) != (b_ is None) or (a_ is not None and not (abs(a_ - b_) <= 1e-6 * max(abs(a_), abs(b_), 1e-300) + (1e-6 if nm in ("period", "fpa", "sin_fpa", "cos_fpa") else 0.0))):
+                out.fail(f"{fam0}-{nm}-vs-fresh-object", f"infos.{nm} differs from what a freshly constructed object with the same cartesian values, frame and date reports",
+                         inp, observed=a_, expected=b_)
+                return True
+    return False
 
 # ---------------------------------------------------------------- extract: formulas and tables regenerated from /repo
 
@@ -623,8 +1394,186 @@ def extract(ctx):
     if core.write_if_changed(os.path.join(core.LEAN, "BeyondVerif", "Generated", "FormTables.lean"), "\n".join(t) + "\n"):
         ch.append("Generated/FormTables.lean")
     ctx.edges = edges
+    ctx.sv_tables = sv_tables(svtree, tree, ast.parse(open(FRAMES_PY).read()))
+    if write_sv_tables(ctx.sv_tables):
+        ch.append("Generated/SVTables.lean")
     ch += instantiate.main()
     return ch
+
+
+
+# ---------------------------------------------------------------- StateVector as a state machine: tables read from the AST
+
+FRAMES_PY = os.path.join(core.REPO, "beyond", "frames", "frames.py")
+
+SHAPES = {
+    # (file key, qualified name): source text the model of lean/templates/SVMachine.tpl was written against
+    ("sv", "Infos.__init__"): "self.orb = orb\n",
+    ("sv", "Infos.kep"): "if not hasattr(self, '_kep'):\n    self._kep = self.orb.copy(form='keplerian')\nreturn self._kep\n",
+    ("sv", "Infos.sphe"): "if not hasattr(self, '_sphe'):\n    self._sphe = self.orb.copy(form='spherical')\nreturn self._sphe\n",
+    ("sv", "Infos.mu"): "return self.orb.frame.center.body.mu\n",
+    ("sv", "Infos.r"): "return self.sphe.r\n",
+    ("forms", "Form.__call__"): ("if isinstance(new_form, Form):\n    new_form = new_form.name\ncoord = orbit.copy()\nif new_form != orbit.form.name:\n"
+                                 "    for a, b in self.steps(new_form):\n        name = f'_{a.name.lower()}_to_{b.name.lower()}'\n"
+                                 "        coord = getattr(self, name)(coord, orbit.frame.center.body)\nreturn coord\n"),
+    ("frames", "Frame.transform"): ("new_orb = orbit.copy(form='cartesian')\noffset = self.center.convert_to(orbit.date, new_frame.center, new_frame.orientation)\n"
+                                    "m = self.orientation.convert_to(orbit.date, new_frame.orientation)\nnew_orb[:] = m @ new_orb + offset\n"
+                                    "new_orb._frame = new_frame\nnew_orb.form = orbit.form\nreturn new_orb\n"),
+}
+
+
+def _nodoc(body):
+    return [s for s in body if not (isinstance(s, ast.Expr) and isinstance(s.value, ast.Constant))]
+
+
+def _dump(stmts):
+    return [ast.dump(s) for s in stmts]
+
+
+def _same(stmts, text):
+    return _dump(stmts) == _dump(ast.parse(text).body)
+
+
+def _find_prop(tree, cls, name, kind):
+    """the getter (`kind='getter'`: decorated `@property`) or setter (`@<name>.setter`) of a property of class `cls`"""
+    c = py2lean.find_function(tree, cls)
+    for f in c.body:
+        if isinstance(f, ast.FunctionDef) and f.name == name:
+            decs = [ast.unparse(d) for d in f.decorator_list]
+            if (kind == "getter" and "property" in decs) or (kind == "setter" and f"{name}.setter" in decs):
+                return f
+    raise py2lean.Untranslatable(f"{cls}.{name} ({kind}) not found")
+
+
+def _flatten(stmts):
+    """statements in the order they execute when nothing raises: a `try … finally` contributes its body, then its
+    finally block (handlers / else are not modelled)"""
+    out = []
+    for s in stmts:
+        if isinstance(s, ast.Try):
+            if s.handlers or s.orelse:
+                raise py2lean.Untranslatable("setter: try with handlers / else is not modelled")
+            out += _flatten(s.body) + _flatten(s.finalbody)
+        else:
+            out.append(s)
+    return out
+
+
+def sv_tables(svtree, formstree, framestree):
+    """what the state machine of lean/templates/SVMachine.tpl interprets, read from the current source:
+    the order of the effects inside the `form` setter, the `frame` setter and `copy`, and the two keys of the `infos`
+    property; everything else the machine relies on is checked to have exactly the modelled shape"""
+    trees = {"sv": svtree, "forms": formstree, "frames": framestree}
+    for (k, qn), text in SHAPES.items():
+        fn = py2lean.find_function(trees[k], qn)
+        if not _same(_nodoc(fn.body), text):
+            raise py2lean.Untranslatable(f"{qn} no longer has the modelled shape")
+    # --- infos property
+    fn = _find_prop(svtree, "StateVector", "infos", "getter")
+    body = _nodoc(fn.body)
+    if not (len(body) == 2 and isinstance(body[0], ast.If) and not body[0].orelse and len(body[0].body) == 1 and isinstance(body[1], ast.Return)):
+        raise py2lean.Untranslatable("StateVector.infos: unexpected shape")
+    test = ast.unparse(body[0].test)
+    m = re.fullmatch(r"not hasattr\(self, '([^']+)'\)", test)
+    if m:
+        guard = m.group(1)
+        forms = importlib_forms()
+        if guard in forms._cache_param_names or forms.Form.alt.get(guard, guard) in forms._cache_param_names:
+            raise py2lean.Untranslatable("StateVector.infos: the guard tests the name of an orbital element")
+    else:
+        m = re.fullmatch(r"'([^']+)' not in self\._data(?:\.keys\(\))?", test)
+        if not m:
+            raise py2lean.Untranslatable(f"StateVector.infos: guard `{test}` is not modelled")
+        guard = m.group(1)
+    st = ast.unparse(body[0].body[0])
+    m = re.fullmatch(r"self\._data\['([^']+)'\] = Infos\(self\)", st)
+    if not m:
+        raise py2lean.Untranslatable(f"StateVector.infos: `{st}` is not modelled")
+    store = m.group(1)
+    if ast.unparse(body[1].value) != f"self._data['{store}']":
+        raise py2lean.Untranslatable("StateVector.infos: does not return the stored helper")
+    # --- form setter
+    fn = _find_prop(svtree, "StateVector", "form", "setter")
+    body = _nodoc(fn.body)
+    arg = fn.args.args[1].arg
+    if not (body and _same(body[:1], f"if isinstance({arg}, str):\n    {arg} = get_form({arg})\n")):
+        raise py2lean.Untranslatable("form setter: unexpected head")
+    form_steps = []
+    for s in _flatten(body[1:]):
+        t = ast.unparse(s)
+        if t == f"self.view(np.ndarray)[:] = self._data['form'](self, {arg})":
+            form_steps.append("convert")
+        elif t == f"self._data['form'] = {arg}":
+            form_steps.append("commit")
+        else:
+            raise py2lean.Untranslatable(f"form setter: `{t}` is not modelled")
+    if sorted(form_steps) != ["commit", "convert"]:
+        raise py2lean.Untranslatable(f"form setter: effects {form_steps}")
+    # --- frame setter
+    fn = _find_prop(svtree, "StateVector", "frame", "setter")
+    body = _nodoc(fn.body)
+    arg = fn.args.args[1].arg
+    head = f"old_form = self.form\nold_frame = self.frame\nif isinstance({arg}, str):\n    {arg} = get_frame({arg})\n"
+    tail = f"if self.cov is not None and self.cov.frame == old_frame:\n    self.cov.frame = {arg}\n"
+    if not (len(body) == 5 and _same(body[:3], head) and _same(body[4:], tail) and isinstance(body[3], ast.If) and not body[3].orelse
+            and ast.unparse(body[3].test) == f"{arg} != self.frame"):
+        raise py2lean.Untranslatable("frame setter: unexpected skeleton")
+    frame_steps = []
+    pending = None
+    for s in _flatten(body[3].body):
+        t = ast.unparse(s)
+        m = re.fullmatch(rf"(\w+) = self\.frame\.transform\(self, {arg}\)", t)
+        if t == "self.form = 'cartesian'":
+            frame_steps.append("toCart")
+        elif m:
+            pending = m.group(1)
+            frame_steps.append("transform")
+        elif pending and t == f"self.view(np.ndarray)[:] = {pending}":
+            frame_steps.append("store")
+        elif t == f"self.view(np.ndarray)[:] = self.frame.transform(self, {arg})":
+            frame_steps += ["transform", "store"]
+        elif t == f"self._data['frame'] = {arg}":
+            frame_steps.append("commit")
+        elif t == "self.form = old_form":
+            frame_steps.append("restore")
+        else:
+            raise py2lean.Untranslatable(f"frame setter: `{t}` is not modelled")
+    if sorted(frame_steps) != sorted(["toCart", "transform", "store", "commit", "restore"]):
+        raise py2lean.Untranslatable(f"frame setter: effects {frame_steps}")
+    # --- copy: the two conversions at its end
+    fn = py2lean.find_function(svtree, "StateVector.copy")
+    copy_steps = []
+    for s in _nodoc(fn.body):
+        t = ast.unparse(s)
+        if t == "if frame and frame != self.frame:\n    new_obj.frame = frame":
+            copy_steps.append("frame")
+        elif t == "if form and form != self.form:\n    new_obj.form = form":
+            copy_steps.append("form")
+    if sorted(copy_steps) != ["form", "frame"]:
+        raise py2lean.Untranslatable(f"copy: conversions {copy_steps}")
+    return {"guard": guard, "store": store, "form": form_steps, "frame": frame_steps, "copy": copy_steps}
+
+
+def importlib_forms():
+    import importlib
+    return importlib.import_module("beyond.orbits.forms")
+
+
+def write_sv_tables(t):
+    L = ["/- GENERATED by harness/props/C01.py from beyond/orbits/statevector.py — do not edit. -/", "namespace BeyondVerif.Generated",
+         "/-- the name under which the `infos` property looks for an existing `Infos` helper (`hasattr(self, KEY)` / `KEY in self._data`) -/",
+         f'def infosGuardKey : String := "{t["guard"]}"',
+         "/-- the key of `_data` under which the `infos` property stores the helper it creates -/",
+         f'def infosStoreKey : String := "{t["store"]}"',
+         "/-- effects of the `form` setter in source order: convert = `self.view(np.ndarray)[:] = self._data[\"form\"](self, new_form)`, commit = `self._data[\"form\"] = new_form` -/",
+         "def formSetterSteps : List String := " + lean_str_list(t["form"]),
+         "/-- effects of the `frame` setter (inside `if new_frame != self.frame`) in execution order: toCart = `self.form = \"cartesian\"`, transform = `self.frame.transform(self, new_frame)`, "
+         "store = `self.view(np.ndarray)[:] = …`, commit = `self._data[\"frame\"] = new_frame`, restore = `self.form = old_form` -/",
+         "def frameSetterSteps : List String := " + lean_str_list(t["frame"]),
+         "/-- the conversions at the end of `copy`, in source order -/",
+         "def copySteps : List String := " + lean_str_list(t["copy"]),
+         "end BeyondVerif.Generated"]
+    return core.write_if_changed(os.path.join(core.LEAN, "BeyondVerif", "Generated", "SVTables.lean"), "\n".join(L) + "\n")
 
 
 def _graph_names():
@@ -726,6 +1675,86 @@ def cmp_vec(out, fam, what, inp, real, model, form, scales, hyper, cond=1.0):
     return True
 
 
+
+def hist_discrepancy(real, model, form, mu, q, x, hyper):
+    """largest difference between the six numbers of the real object and of the Lean model, in units of the natural scale
+    of each component (angles on the circle)"""
+    sc = out_scales(form, mu, q["a"], x)
+    worst = 0.0
+    for idx in range(6):
+        a, b = float(real[idx]), float(model[idx])
+        if not (math.isfinite(a) and math.isfinite(b)):
+            if math.isfinite(a) or math.isfinite(b):
+                return float("inf")
+            continue
+        if idx in ANGLE_IDX[form] and not (hyper and idx == 5 and form in ("keplerian_eccentric", "keplerian_mean", "keplerian_mean_circular")):
+            d = angdiff(a, b)
+        else:
+            d = abs(a - b) / max(abs(a), abs(b), sc[idx] if idx < 3 or form in ("cartesian", "spherical", "cylindrical", "tle") else 1.0)
+        worst = max(worst, d)
+    return worst
+
+
+def state_cond(q):
+    """how much one rounding error of a conversion is amplified at this state (1/e for the perigee-related angles, 1/(1-e) near
+    the parabola, 1/sin i for the node-related angles, cosh^2 H for the hyperbolic anomaly)"""
+    e = q["e"]
+    c = max(1.0, 1e-3 / e) * (1 / (1 - e) if e < 1 else max(1.0, 0.1 / (e - 1))) * max(1.0, 0.1 / math.sin(q["i"])) * max(1.0, 0.05 * q["r"] / q["rho"])
+    if e > 1:
+        c *= max(1.0, 1e-3 * math.cosh(q["E"]) ** 2)
+    return c
+
+
+def hist_correspondence(ctx, out, reqs, meta):
+    """operation histories: the real object vs the state machine of Model/SVMachine (one request line per history)"""
+    rng = ctx.rng
+    hf = hist_frames()
+    todo = [gen_history(rng, hf, rng.randint(3, 12)) for _ in range(ctx.n(150, 3000))] + pinned_histories(hf)
+    for init, ops in todo:
+        steps = run_history(init, ops, hf, None, want_tokens=True)
+        fe = hf[init["frame"]]
+        reqs.append(" ".join(["hist", init["form"], str(fe["id"]), f2b(fe["body"].mu)] + [f2b(v) for v in init["six"]] + [t for st in steps for t in st["toks"]]))
+        meta.append(("hist", steps, None, None, None, 1.0, {"init": init, "ops": ops}))
+        for st, op in zip(steps, ops):
+            out.count(key=(reqs[-1][:60], st["step"]), kind="hist-" + op["op"], **({"hist_change": st["fam"].split("-", 2)[2]} if op["op"] in ("frame", "copy") else {}))
+
+
+def hist_compare(out, steps, rep, inp):
+    segs = [x.strip() for x in rep.split("|")]
+    if len(segs) != len(steps) or segs[-1] in ("fuel", "bad-op"):
+        out.fail("hist", f"the model does not run the whole history ({segs[-1][:20]})", inp, observed=[st["tag"] for st in steps], expected=[x[:1] for x in segs])
+        return
+    budget = 0.0
+    rmax = 0.0
+    for st, seg in zip(steps, segs):
+        toks = seg.split()
+        q, x = st["q"], st["x"]
+        hyper = q["e"] > 1
+        rmax = max(rmax, q["r"])
+        budget += state_cond(q) * rmax / q["r"]
+        if toks[0] != st["tag"]:
+            out.fail(st["fam"].replace("history-", "hist-") + "-outcome", "the operation ends differently on the real object and in the model (D done, A AttributeError, U UnknownFormError, I infos)",
+                     dict(inp, step=st["step"]), observed=st["tag"], expected=toks[0])
+            return
+        model = [b2f(t) for t in toks[1:7]]
+        d = hist_discrepancy(st["six"], model, st["form"], st["mu"], q, x, hyper)
+        out.notes_max = max(getattr(out, "notes_max", 0.0), d / budget)
+        if not d <= 2e-10 * budget:
+            out.fail(st["fam"].replace("history-", "hist-"), "the six numbers of the real object after this operation differ from those of the state machine model",
+                     dict(inp, step=st["step"]), observed=st["six"], expected=model)
+            return
+        if st["tag"] == "I":
+            mi = [b2f(t) for t in toks[7:]]
+            for nm, a_, b_ in zip(INFOS_READ, st["infos"], mi):
+                if a_ is None:
+                    continue
+                tol = 2e-10 * budget * (max(abs(a_), abs(b_)) + (1.0 if nm in ("fpa", "sin_fpa", "cos_fpa") else 0.0)) + (1e-6 if nm == "period" else 0.0)   # timedelta: microseconds
+                if not ((not math.isfinite(a_) and not math.isfinite(b_)) or abs(a_ - b_) <= tol):
+                    out.fail(st["fam"].replace("history-", "hist-") + "-" + nm, f"infos.{nm} read from the real object at this point of the history differs from the state machine model",
+                             dict(inp, step=st["step"]), observed=a_, expected=b_)
+                    return
+
+
 def correspondence(ctx):
     import numpy as np
     out = Outcome()
@@ -823,8 +1852,12 @@ def correspondence(ctx):
         reqs.append(" ".join(["infos", f2b(mu), f2b(r), f2b(kep.a), f2b(kep.e), f2b(kep.nu)]))
         meta.append(("infos", vals, None, None, hyper, 1.0, {"body": frs[k].center.body.name, "r": r, "a": float(kep.a), "e": float(kep.e), "nu": float(kep.nu)}))
         out.count(key=reqs[-1], kind="infos-" + ("hyp" if hyper else "ell"))
+    hist_correspondence(ctx, out, reqs, meta)
     replies = core.Driver().run(reqs)
     for req, (kind, real, form, scales, hyper, cond, inp), rep in zip(reqs, meta, replies):
+        if kind == "hist":
+            hist_compare(out, real, rep, inp)
+            continue
         if kind == "m2e":
             if rep == "fuel":
                 if math.isfinite(real):
@@ -872,6 +1905,10 @@ def replay(f):
         out.count(key="replay")
         if not (math.isfinite(got) and abs(res) <= 1e-6 * max(1.0, abs(inp["M"]))):
             out.fail(fail["family"], fail["what"], inp, observed=got, expected=fail.get("expected"))
+        return out
+    if "init" in inp and "ops" in inp:
+        run_history(inp["init"], inp["ops"], hist_frames(), out)
+        out.failures = [x for x in out.failures if x["family"] == fail["family"]][:1]
         return out
     if "a" in inp and "Omega" in inp:
         frs = frames()
